@@ -1701,6 +1701,35 @@ func (a *Activation) goStmt(in *ssa.Go, st *State) *State {
 }
 
 func (a *Activation) mapOps(instr ssa.Instruction, st *State) *State {
+	t := a.t
+	if lk, ok := instr.(*ssa.Lookup); ok {
+		if mt, ok := lk.X.Type().Underlying().(*types.Map); ok {
+			// maps are read-only in this module: a lookup is a pure function of (map, key)
+			t.assumed["map lookups are pure functions of (map, key): the module never writes the maps it reads"] = true
+			m := a.val(lk.X, st)
+			k := a.val(lk.Index, st)
+			j := 0
+			v := t.buildFromScalars(mt.Elem(), func(kd Kind, LT types.Type) string {
+				f := t.declareFun(fmt.Sprintf("$mapget%d%s", j, sortSig(kd)), []string{"Int", "Int"}, sortOfKind(kd))
+				j++
+				term := sApp(f, m.S, k.S)
+				if kd == KInt {
+					t.assume(st.pc, inRangeTerm(term, LT))
+				}
+				return term
+			})
+			if v.K == KSlice {
+				t.assume(st.pc, "(>= "+v.Fields[1].S+" 0)")
+			}
+			if lk.CommaOk {
+				has := t.declareFun("$maphas", []string{"Int", "Int"}, "Bool")
+				a.env[lk] = Val{K: KTuple, T: lk.Type(), Fields: []Val{v, boolVal(sApp(has, m.S, k.S))}}
+			} else {
+				a.env[lk] = v
+			}
+			return st
+		}
+	}
 	a.t.errorf("%s: map/range instruction %T outside the subset", a.fn, instr)
 	if v, ok := instr.(ssa.Value); ok {
 		a.env[v] = a.t.freshValue(st.pc, "map", v.Type())
